@@ -126,7 +126,7 @@ func (w *World) TraceRun(s *Scenario, tr *vh.Trace) error {
 	}
 	ic.VM.LoadScriptWithFlags(tx.Script, callflag.All)
 	ic.VM.SetGasLimit(tx.SystemFee)
-	tr.Emit(map[string]any{"event": "begin", "id": s.Name, "used": used, "fund": fund, "obs": w.observeIC(ic, s, &layers)})
+	tr.Emit(map[string]any{"event": "begin", "id": s.Name, "tree": blockJSON(s.Root), "used": used, "fund": fund, "obs": w.observeIC(ic, s, &layers)})
 	ic.VM.SetOnExecHook(func(h util.Uint160, off int, _ opcode.Opcode) {
 		mk, ok := marks[h][off]
 		if !ok {
